@@ -88,8 +88,14 @@ func (s *Site) signIn(pre Cookie, cookieVal string, before *sessions.SessionStat
 	}
 	target := s.signInTarget(r)
 	resp := world.Do(s.A.Handler, world.NewReq("GET", authHost, target, nil, cookies, ""))
-	now := time.Now()
 	conc := &Concrete{Target: target, Cookie: cookieVal, Script: sc}
+	o, x := s.projectSignIn(resp, pre, cookieVal, before, login)
+	return o, conc, x
+}
+
+// projectSignIn projects a /sign_in response to the abstract outcome.
+func (s *Site) projectSignIn(resp *world.Resp, pre Cookie, cookieVal string, before *sessions.SessionState, login time.Time) (SOut, signInX) {
+	now := time.Now()
 	o := SOut{Status: resp.Status, Calls: s.calls(), CodeEmail: "na"}
 	x := signInX{Panic: resp.PanicMsg}
 
@@ -167,7 +173,7 @@ func (s *Site) signIn(pre Cookie, cookieVal string, before *sessions.SessionStat
 			}
 		}
 	}
-	return o, conc, x
+	return o, x
 }
 
 // RunSignInCell executes one one-step /sign_in cell.
